@@ -43,5 +43,38 @@
 #define VERIF_LOOP_insert_cas /* default: sequential semantics, the CAS succeeds at once; the interference harness overrides this */
 #endif
 
+/* ---- src/mm/buddy/multi.c. Defaults are empty (the loop is unwound by the harness); the harnesses that close a loop
+ *      by an invariant define the macro before including verif_harness.h (see harness/c13_fossil.c, c05_multi.c). */
+#ifndef VERIF_LOOP_rs_malloc_try
+#define VERIF_LOOP_rs_malloc_try
+#endif
+#ifndef VERIF_LOOP_rs_malloc_pos
+#define VERIF_LOOP_rs_malloc_pos
+#endif
+#ifndef VERIF_LOOP_find_by_address
+#define VERIF_LOOP_find_by_address
+#endif
+#ifndef VERIF_LOOP_ckpt_take_arenas
+#define VERIF_LOOP_ckpt_take_arenas
+#endif
+#ifndef VERIF_LOOP_restore_scan
+#define VERIF_LOOP_restore_scan
+#endif
+#ifndef VERIF_LOOP_restore_arenas
+#define VERIF_LOOP_restore_arenas
+#endif
+#ifndef VERIF_LOOP_restore_free
+#define VERIF_LOOP_restore_free
+#endif
+#ifndef VERIF_LOOP_fossil_scan
+#define VERIF_LOOP_fossil_scan
+#endif
+#ifndef VERIF_LOOP_fossil_rebase
+#define VERIF_LOOP_fossil_rebase
+#endif
+#ifndef VERIF_LOOP_fossil_free
+#define VERIF_LOOP_fossil_free
+#endif
+
 #endif /* !VERIF_NATIVE */
 #endif
